@@ -18,29 +18,27 @@ Theorem C16_close_notify_reply_at_most_once :
 Proof. exact cn_reply_le1. Qed.
 Print Assumptions C16_close_notify_reply_at_most_once.
 
-(* The ideal "at most one close_notify record per side" FAILS on the model of the code: the
-   reply to a received close_notify (read loop) and the close_notify of the application's
-   Close() are both written when Close() runs between the reply and the read loop's
-   close(false).  The witness is replayed on the implementation by the harness (event simul). *)
-Theorem C16_close_notify_total_at_most_once_refuted :
-  exists ops, let c := cn (run ops (cfg0 false false)) in
-    cn_close c = 1 /\ cn_reply c = 1 /\ cn_close c + cn_reply c = 2.
-Proof. exact close_notify_total_at_most_once_refuted. Qed.
-Print Assumptions C16_close_notify_total_at_most_once_refuted.
-
-Theorem C16_close_notify_total_at_most_twice :
+(* At most one close_notify record per endpoint in total: the reply of the read loop to a
+   received close_notify and the close_notify of the application's Close() share
+   conn.closeNotifyOnce (sendCloseNotify).  Before that fix the model refuted this statement
+   (witness schedule ops_two_close_notify, now an Example with one record); the harness keeps
+   the former failing placement v12/simul/client/6/1/0/0 as a regression case. *)
+Theorem C16_close_notify_total_at_most_once :
   forall (d v : bool) (ops : list op),
-    let c := cn (run ops (cfg0 d v)) in cn_close c + cn_reply c <= 2.
-Proof. exact close_notify_total_le2. Qed.
-Print Assumptions C16_close_notify_total_at_most_twice.
+    let c := cn (run ops (cfg0 d v)) in cn_close c + cn_reply c <= 1.
+Proof. exact close_notify_total_le1. Qed.
+Print Assumptions C16_close_notify_total_at_most_once.
 
 (* --- exactly one close_notify when the application closes an established open session --- *)
+(* What is true of the model with the shared Once: exactly one close_notify record of this
+   endpoint is on the wire - the one of this Close(), or the read loop's reply to the peer's
+   close_notify if that reached the Once first (then Close() writes none). *)
 Theorem C16_close_notify_sent_when_user_closes_established_open :
   forall (d v : bool) (ops1 ops2 : list op) (i : nat),
     let g1 := run ops1 (cfg0 d v) in
     est (cn g1) = true -> closed (cn g1) = false -> nth_error (us g1) i = Some (UC CLock) ->
     let g2 := run (StepUser i :: ops2) g1 in
-    nth_error (us g2) i = Some UDone -> cn_close (cn g2) = 1.
+    nth_error (us g2) i = Some UDone -> cn_close (cn g2) + cn_reply (cn g2) = 1.
 Proof. exact sent_when_user_closes_established_open. Qed.
 Print Assumptions C16_close_notify_sent_when_user_closes_established_open.
 
@@ -84,20 +82,13 @@ Theorem C16_blocked_read_unblocks :
 Proof. exact read_unblocks. Qed.
 Print Assumptions C16_blocked_read_unblocks.
 
-Theorem C16_blocked_write_unblocks_dtls12 :
-  forall c : conn, closed c = true -> v13 c = false ->
+(* DTLS 1.2 and 1.3 alike (Conn.Write maps Canceled-while-closed to ErrConnClosed) *)
+Theorem C16_blocked_write_unblocks :
+  forall c : conn, closed c = true ->
     In KClosed (write_ready c) /\
     (wr_dl c = false -> forall k, In k (write_ready c) -> close_class k = true).
-Proof. exact write_unblocks_v12. Qed.
-Print Assumptions C16_blocked_write_unblocks_dtls12.
-
-(* DTLS 1.3: the Write is woken, but with context.Canceled (not a closed/EOF-class error) *)
-Theorem C16_blocked_write_closed_class_dtls13_refuted :
-  exists ops, let c := cn (run ops (cfg0 false true)) in
-    closed c = true /\ wr_dl c = false /\
-    exists k, In k (write_ready c) /\ close_class k = false.
-Proof. exact write_unblocks_closed_class_v13_refuted. Qed.
-Print Assumptions C16_blocked_write_closed_class_dtls13_refuted.
+Proof. exact write_unblocks. Qed.
+Print Assumptions C16_blocked_write_unblocks.
 
 (* --- Close() returns, HandshakeContext is released, no goroutine stays (model level) --- *)
 Theorem C16_no_deadlock :
@@ -147,6 +138,11 @@ Proof. exact alert_closes_like_user. Qed.
 Print Assumptions C16_alert_closes_like_user.
 
 (* --- non-vacuity --- *)
+Example C16_example_former_two_close_notify_schedule :
+  let c := cn (run ops_two_close_notify (cfg0 false false)) in
+  cn_close c = 0 /\ cn_reply c = 1 /\ cn_once c = true /\ closed c = true.
+Proof. exact former_two_close_notify_schedule. Qed.
+
 Example C16_example_four_closers :
   let g := run ops_four_closers (cfg0 false false) in
   cn_close (cn g) = 1 /\ cn_reply (cn g) = 0 /\ sock_closes (cn g) = 1 /\ quiet g = true /\
